@@ -305,6 +305,10 @@ def scale_shapes():
         ("list", ("elems", (("any", None), E)), (ln(3),)), ("list", ("elems", (E, INT, ("any", None), E)), (ln(4),)),
         ("list", ("typed", INT), (ln(25),)), ("list", ("typed", S("bool")), (ln(40, E),)),
         ("list", ("elems", tuple([a] * 6 + [E])), (ln(12),)), ("list", ("elems", tuple([E] + [STR] * 5)), ()),
+        # member counts around the multiples of 5 (wrapping, chunking, slicing by fives or tens)
+        *[("any", tuple(S("int", call(i)) for i in range(n))) for n in (5, 6, 10, 11, 16)],
+        *[("list", ("elems", tuple(S("int", call(i)) for i in range(n))), ()) for n in (5, 6, 11)],
+        *[("dict", tuple(("k%02d" % i, i % 4 == 3, S("int", call(i))) for i in range(n)), n == 6) for n in (5, 6, 11)],
         ten, ("mkreq", ten, None), ("add", ten, ("dict", (("k3", True, a), ("new", False, a)), True)),
         ("any", (a, STR, NONE, S("bool"), S("bytes"), S("float"), ("list", ("typed", a), ()))),
         deep5,
